@@ -27,6 +27,11 @@ func runC13(p *eng.Prog, r *eng.Report, tier string) {
 	// C13.36 (= C14.7): the hand-written constructors agree with the struct decoders on typed attributes
 	typedAttrsThroughOwnDecoder(c, "C13.36")
 	c11SplitString(c, "C13.33")
+	// C13.37 (= C11.4 / C11.10): the domainpart of an address attribute is a fixed point of the mapping
+	// (what a stanza carries as to / from / by parses back to the same address)
+	importRules(c, "C11", []string{"C11.4", "C11.10"}, "C13.37")
+	// C13.38 (= C05.23): the standard-marshaller path hands out no storage that goes back to a pool
+	c.r.Note("C13.38: %d Pool.Put calls", pooledStorageDoesNotEscape(c, "C13.38"))
 	c11EncodersEmitString(c, "C13.35")
 	c13ErrorIsDirectChild(c, "C13.34")
 	// ---- C13.10 encoders emit field values verbatim --------------------------------
